@@ -15,7 +15,7 @@ from pathlib import Path
 from typing import Callable, Iterable, Optional
 
 VERIF = Path(__file__).resolve().parent.parent
-LEAN = VERIF / "lean"
+LEAN = Path(os.environ.get("VERIF_LEAN_DIR") or VERIF / "lean")      # proof work in a scratch copy can be checked against /repo before it is integrated
 DRIVER = LEAN / ".lake" / "build" / "bin" / "archsim-model"
 EVIDENCE = Path(os.environ.get("VERIF_EVIDENCE_DIR") or VERIF / "evidence")   # seedtest.py redirects it: evidence is of the unchanged tree only
 REPLAYS = VERIF / "replays"
